@@ -621,6 +621,39 @@ pub fn gen_script(r: &mut Rng, name: &str, metric: &str, dim: usize, lim: &Limit
             steps.push(Step { op: Op::Restart, label: lab("restart", "-", "mid-script") });
         }
     }
+    // ---- durability of refused stream items: every streaming write path x every non-finite class and
+    // position, over ids that hold an ACKNOWLEDGED document (1,2,3) and over fresh ids (4,5,6), followed
+    // IMMEDIATELY by a restart and re-census (no re-seeding in between: a later insert of the same id
+    // would hide a WAL that replays the refused item / its compensating delete).
+    let mid = dim / 2;
+    steps.push(Step { op: Op::Restart, label: lab("restart", "-", "before-the-durability-groups") });
+    for bulk in ["BulkInsert", "BulkLoadHnsw"] {
+        for (cls, x) in [("nan", f32::NAN), ("+inf", f32::INFINITY), ("-inf", f32::NEG_INFINITY)] {
+            for id in [1u64, 2, 3] {
+                steps.push(Step { op: Op::Insert(It { id, vec: Vecr::of(r.pick::<Vec<f32>>(&good[..])), meta: r.pick(&metas[..]).clone() }), label: lab("Insert", "seed", "acknowledged-before-refused-item") });
+            }
+            steps.push(Step { op: Op::BatchDeleteIds(vec![(4, 1), (5, 1), (6, 1)]), label: lab("BatchDelete(ids)", "seed", "make-ids-fresh") });
+            let base: Vec<f32> = (0..dim).map(|i| if i == 0 { 1.0 } else { 0.5 }).collect();
+            let at = |pos: usize| {
+                let mut v = base.clone();
+                v[pos] = x;
+                Vecr::of(&v)
+            };
+            let items: Rl<It> = vec![
+                (It { id: 1, vec: at(0), meta: vec![] }, 1),
+                (It { id: 4, vec: at(0), meta: vec![] }, 1),
+                (It { id: 2, vec: at(mid), meta: vec![("a".into(), "b".into())] }, 1),
+                (It { id: 5, vec: at(mid), meta: vec![] }, 1),
+                (It { id: 3, vec: at(dim - 1), meta: vec![] }, 1),
+                (It { id: 6, vec: at(dim - 1), meta: vec![] }, 1),
+            ];
+            let single: Rl<It> = vec![(It { id: 1, vec: at(mid), meta: vec![] }, 1)];
+            let mk = |v: Rl<It>| if bulk == "BulkInsert" { Op::BulkInsert(v) } else { Op::BulkLoad(v) };
+            steps.push(Step { op: mk(single), label: lab(bulk, "non-finite-single-item-over-acknowledged-id-then-restart", cls) });
+            steps.push(Step { op: mk(items), label: lab(bulk, "non-finite-first-middle-last-over-acknowledged-and-fresh-ids-then-restart", cls) });
+            steps.push(Step { op: Op::Restart, label: lab("restart", "after-refused-non-finite-items", &format!("{}-{}", bulk, cls)) });
+        }
+    }
     steps.push(Step { op: Op::Restart, label: lab("restart", "-", "final") });
     Script { name: name.to_string(), metric: metric.to_string(), dim, steps }
 }
